@@ -7,6 +7,7 @@
 -/
 import NcVerif.Proofs.SessionB
 import NcVerif.Spec.Profiles
+import NcVerif.Proofs.XmlDoc
 namespace NcVerif.C05
 open NcVerif NcVerif.Session NcVerif.SessionSpec NcVerif.Framing NcVerif.FramingSpec NcVerif.ProfilesSpec
 
@@ -94,6 +95,21 @@ def lateReadyOps : List Op :=
 example : (run C03demo.env init lateReadyOps).base11 = true ∧
     (run C03demo.env init lateReadyOps).wire =
       [0x48, 0x5d, 0x5d, 0x3e, 0x5d, 0x5d, 0x3e] ++ [0x0a, 0x23, 0x31, 0x0a, 0x61, 0x0a, 0x23, 0x23, 0x0a] := by
+  decide +kernel
+
+/-! ## The `<hello>` document itself (Model/XmlDoc: serialiser and reader modelled, compared with
+`HelloHandler.build` byte for byte and with an independent reader on every run) -/
+
+/-- A peer that reads the `<hello>` ncclient builds gets exactly the capability list the manager
+    reports — every URI, in order, unaltered (query strings with `&`, `<` … included) — under both
+    namespace spellings the device profiles use (`nc:` prefix, default namespace). -/
+theorem hello_lists_exactly_the_capabilities (pfx : Str) (caps : List Str)
+    (hp : XmlDocP.StdPfx pfx) (hc : ∀ c ∈ caps, c ≠ []) :
+    (XmlDoc.parseDoc (XmlDoc.serialize (XmlDoc.helloTree pfx caps))).map (XmlDoc.capsOf pfx) = some (caps.map some) :=
+  XmlDocP.hello_roundtrip pfx caps hp hc
+
+example : XmlDoc.serialize (XmlDoc.helloTree "nc:".toList ["urn:x?a=1&b=<2>".toList])
+    = "<nc:hello xmlns:nc=\"urn:ietf:params:xml:ns:netconf:base:1.0\"><nc:capabilities><nc:capability>urn:x?a=1&amp;b=&lt;2&gt;</nc:capability></nc:capabilities></nc:hello>".toList := by
   decide +kernel
 
 end NcVerif.C05
